@@ -756,7 +756,7 @@ def p_insert(itp, name, args, kw, node, st):
                 r.q = None
             else:
                 r.q = Q.q_same(itp, a.q, v.q, node, 'concat')
-    itp.events.append(('insert', node, args[1], a.shape, v, a, itp.cur.qname if itp.cur else ''))
+    itp.events.append(('insert', node, args[1], a.shape, v, a, itp.cur.qname if itp.cur else '', args[2]))
     return r
 
 
@@ -1001,6 +1001,7 @@ def p_fft(itp, name, args, kw, node, st):
         r.shape = None
     r.taint = a.taint | taints(nlen, axis)
     itp.events.append(('fft', node, base, a.shape, nlen, ax, a))
+    itp.events.append(('fft-out', node, r.shape, itp.cur.qname if itp.cur else ''))
     if itp.d4:
         itp.events.append(('fft-q', node, a.q, itp.cur.qname if itp.cur else ''))
     r.q = None
@@ -1153,4 +1154,47 @@ def p_fftshift(itp, name, args, kw, node, st):
             if a is not None:
                 r.seg = segmap.normalise(a[1] + a[0])
     USED.add('fftshift(x) = x[n-n//2:] ++ x[:n-n//2]; ifftshift(x) = x[n//2:] ++ x[:n//2]')
+    return r
+
+
+@prim('numpy.fft.hfft', 'numpy.fft.irfft')
+def p_hfft(itp, name, args, kw, node, st):
+    """hfft(a, n): real output of length n (default 2*(len(a)-1)): the transform of the Hermitian extension of a"""
+    a = N(args[0])
+    if a is None:
+        return mk(itp, name, *args)
+    nlen = arg(args, kw, 1, 'n')
+    r = a.copy(cplx=False, rv=True, nonneg=False)
+    r.ex = None
+    ln = None
+    if nlen is not None and not (isinstance(nlen, Const) and nlen.v is None):
+        ln = _int_aff(nlen)
+    elif a.shape is not None and len(a.shape) == 1 and a.shape[0] is not None:
+        ln = (a.shape[0] - 1).scale(2)
+    r.shape = (ln,) if (a.shape is None or len(a.shape) == 1) else None
+    r.taint = a.taint | taints(nlen)
+    r.q = None
+    if ln is not None:
+        from . import segmap
+        r.seg = segmap.identity('F', ln)
+    itp.events.append(('fft', node, name.split('.')[-1], a.shape, nlen, -1, a))
+    itp.events.append(('fft-out', node, r.shape, itp.cur.qname if itp.cur else ''))
+    if itp.d4:
+        itp.events.append(('fft-q', node, a.q, itp.cur.qname if itp.cur else ''))
+    return r
+
+
+@prim('scipy.linalg.hankel')
+def p_hankel(itp, name, args, kw, node, st):
+    c = N(args[0])
+    r_ = N(args[1]) if len(args) > 1 else None
+    if c is None or (len(args) > 1 and r_ is None):
+        return mk(itp, 'hankel', *args)
+    r = c.copy() if r_ is None else num_add(itp, c, r_, node, 'concat')
+    n0 = c.shape[0] if c.shape else None
+    n1 = (r_.shape[0] if r_.shape else None) if r_ is not None else n0
+    r.shape = (n0, n1)
+    r.ex = None
+    r.zero = False
+    r.q = None
     return r
